@@ -313,6 +313,97 @@ def market_case(ctx, w, lo, up, bo, qo, via, tag):
                 ctx.violate(f"market.add.reported.{name}", f"the call reports {reported} {name} used, the wallet gave {float(spent)}", rep)
 
 
+def views_stream(ctx: Ctx, rng, n):
+    """position amounts as the market reports them (get_position_amount / get_position_status / get_market_balance) after deposits made through
+    the market's own entry points: both tokens inside the range, one outside, closed form at the row's price (the price deposits and withdrawals
+    use — load_uni_v3_data rows carry the previous close as `price` and this bar's close as `closeTick`, which may lie beyond a range bound),
+    proportional to the liquidity after a second deposit into the SAME range inside the same bar, equal to what the deposits took from the
+    wallet, and equal to what a withdrawal at that price then pays"""
+    for _ in range(n):
+        w = U.World(rng)
+        sp = w.pool.tick_spacing
+        lo = w.tick + rng.randint(-40, 12) * sp
+        up = lo + rng.randint(1, 50) * sp
+        # where this bar closes, relative to the range (the row's price stays at w.tick)
+        closing = rng.choice(("same", "same", "below", "above", "inside", "on-lower", "on-upper"))
+        close = {"same": w.tick, "below": lo - rng.randint(1, 30) * sp, "above": up + rng.randint(0, 30) * sp,
+                 "inside": lo + rng.randint(0, (up - lo) // sp - 1) * sp, "on-lower": lo, "on-upper": up}[closing]
+        fracs = [rng.choice(("0.1", "0.25", "0.5")) for _ in range(rng.choice((1, 2, 2, 3)))]
+        views_case(ctx, w, lo, up, close, closing, fracs, rng.random() < 0.6, [str(rng.randint(10 ** 12, 10 ** 24)), str(rng.randint(0, 10 ** 22)), str(rng.randint(0, 10 ** 22))])
+
+
+def views_case(ctx, w, lo, up, close, closing, fracs, withdraw, row):
+    from demeter.uniswap.helper import base_unit_price_to_sqrt_price_x96 as p2s
+    from demeter.uniswap import PositionInfo
+    g = U.ref_sqrt_ratio_at_tick
+    pool, m = w.pool, w.market
+    regime = "below" if w.tick < lo else ("above" if w.tick >= up else "inside")
+    w.set_status(close, w.price, Decimal(row[0]), Decimal(row[1]), Decimal(row[2]))
+    d0, d1 = pool.token0.decimal, pool.token1.decimal
+    s = p2s(m.market_status.data.price, d0, d1, pool.is_token0_quote)
+    sa, sb = g(lo), g(up)
+    pos = PositionInfo(lo, up)
+    steps = len(fracs)
+    fee = {"0.0001": 0.01, "0.0005": 0.05, "0.003": 0.3, "0.01": 1}.get(str(Decimal(pool.fee_rate).normalize()), None)
+    rep = {"kind": "views", "pool": U.pool_json(pool), "fee": fee, "tick": w.tick, "close": close, "closing": closing, "lower": lo, "upper": up, "fracs": list(fracs),
+           "withdraw": withdraw, "row": list(row), "base_balance": str(w.broker.get_token_balance(pool.base_token)),
+           "quote_balance": str(w.broker.get_token_balance(pool.quote_token))}
+    dep = [Fraction(0), Fraction(0)]            # what the deposits took, as (token0, token1)
+    ok = True
+    for step, fr in enumerate(fracs):
+        bb, qb = w.broker.get_token_balance(pool.base_token), w.broker.get_token_balance(pool.quote_token)
+        try:
+            m.add_liquidity_by_tick(lo, up, bb * Decimal(fr), qb * Decimal(fr))
+        except Exception:  # noqa: BLE001  (a refusal is C04's subject)
+            ok = False
+            break
+        sb_, sq_ = Fraction(bb) - Fraction(w.broker.get_token_balance(pool.base_token)), Fraction(qb) - Fraction(w.broker.get_token_balance(pool.quote_token))
+        t0, t1 = (sq_, sb_) if pool.is_token0_quote else (sb_, sq_)
+        dep[0] += t0
+        dep[1] += t1
+        if pos not in m.positions:
+            ctx.violate("views.position-missing", f"add_liquidity_by_tick([{lo},{up}]) was accepted but the market holds no position for that range", rep)
+            ok = False
+            break
+        L = int(m.positions[pos].liquidity)
+        c0, c1 = closed_form(s, sa, sb, L, d0, d1)
+        try:
+            a0, a1 = m.get_position_amount(pos)
+            st = m.get_position_status(pos)
+            bal = m.get_market_balance()
+        except Exception as e:  # noqa: BLE001
+            ctx.violate(f"views.raises.{type(e).__name__}", f"reading the amounts of position [{lo},{up}] raised {type(e).__name__}: {e}"[:200], rep)
+            ok = False
+            break
+        views = {"get_position_amount": (a0, a1), "get_position_status": (st.liquidity_amount0, st.liquidity_amount1),
+                 "get_market_balance": ((bal.quote_in_position, bal.base_in_position) if pool.is_token0_quote else (bal.base_in_position, bal.quote_in_position))}
+        for name, (v0, v1) in views.items():
+            v0, v1 = Fraction(Decimal(v0)), Fraction(Decimal(v1))
+            if not (rel_close(v0, c0, TOL) and rel_close(v1, c1, TOL)):
+                ctx.violate(f"views.closed-form.{name}", f"after deposit {step + 1} into [{lo},{up}] (row price tick {w.tick}: {regime}; the bar closes at tick {close}: {closing}) "
+                            f"{name} reports ({float(v0):.12g}, {float(v1):.12g}) for liquidity {L}; closed form at the row's price ({float(c0):.12g}, {float(c1):.12g})", rep)
+            if (L > 0 and sa < s < sb and not (v0 > 0 and v1 > 0)) or (s <= sa and v1 != 0) or (s >= sb and v0 != 0):
+                ctx.violate(f"views.one-sided.{name}", f"price {regime} the range [{lo},{up}] (the bar closes {closing}) but {name} reports ({v0}, {v1})", rep)
+            # the position holds what was deposited (each deposit loses at most the rounding of its own integer amounts)
+            for i, (v, d) in enumerate(((v0, dep[0]), (v1, dep[1]))):
+                unit = Fraction(steps + 1, 10 ** (d0, d1)[i])
+                if abs(v - d) > unit + Fraction(1, 10 ** 20) * max(d, 1):
+                    ctx.violate(f"views.deposited.{name}", f"{step + 1} deposit(s) into [{lo},{up}] took {float(d):.12g} of token{i} from the wallet, {name} reports {float(v):.12g}", rep)
+    if ok and withdraw:
+        b0, q0 = w.broker.get_token_balance(pool.base_token), w.broker.get_token_balance(pool.quote_token)
+        try:
+            m.remove_liquidity(pos)
+            gb, gq = Fraction(w.broker.get_token_balance(pool.base_token)) - Fraction(b0), Fraction(w.broker.get_token_balance(pool.quote_token)) - Fraction(q0)
+            g0, g1 = (gq, gb) if pool.is_token0_quote else (gb, gq)
+            for i, (got, d) in enumerate(((g0, dep[0]), (g1, dep[1]))):
+                unit = Fraction(steps + 1, 10 ** (d0, d1)[i])
+                if abs(got - d) > unit + Fraction(1, 10 ** 20) * max(d, 1):
+                    ctx.violate("views.withdraw-roundtrip", f"withdrawing at the deposit price pays {float(got):.12g} of token{i}, the deposits took {float(d):.12g}", rep)
+        except Exception as e:  # noqa: BLE001
+            ctx.violate(f"views.remove-raises.{type(e).__name__}", f"remove_liquidity of the position just built raised {type(e).__name__}: {e}"[:200], rep)
+    ctx.case(f"views:{regime}:close-{closing}:deposits{steps}:{'q0' if pool.is_token0_quote else 'q1'}:{'ok' if ok else 'refused'}", rep)
+
+
 def run(ctx: Ctx):
     from demeter.uniswap import liquitidy_math as lm
     from demeter.uniswap import core
@@ -328,6 +419,7 @@ def run(ctx: Ctx):
         check_case(ctx, lm, core, UniV3Pool, TokenInfo, c, reqs)
     purity_stream(ctx, lm, core, UniV3Pool, TokenInfo, ctx.rng, ctx.scale(150, 5000))
     market_stream(ctx, ctx.rng, ctx.scale(400, 10000))
+    views_stream(ctx, ctx.rng, ctx.scale(400, 10000))
     ctx.impl_traces = n
     if ctx.driver_ok:
         out = driver_batch([r[2] for r in reqs])
@@ -355,6 +447,16 @@ def replay(ctx: Ctx, case) -> bool:
         def amt(x, is_int):
             return None if x is None else (int(Decimal(x)) if is_int else Decimal(x))
         market_case(sub, w, case["lower"], case["upper"], amt(case["base"], case["int_zero"][0]), amt(case["quote"], case["int_zero"][1]), case["via"], case["tag"])
+        return not sub.violations
+    if case.get("kind") == "views":
+        import random
+        sub = Ctx(ctx.prop, ctx.tier, ctx.seed, False)
+        pj = case["pool"]
+        w = U.World(random.Random(0), pool_spec=(pj["d0"], pj["d1"], pj["q0"]), fee=case.get("fee"), tick=case["tick"],
+                    balances=(Decimal(case["base_balance"]), Decimal(case["quote_balance"])))
+        views_case(sub, w, case["lower"], case["upper"], case["close"], case["closing"], case["fracs"], case["withdraw"], case["row"])
+        for v in sub.violations:
+            print("  ", v["key"], v["what"][:300])
         return not sub.violations
     if case.get("kind") == "purity":
         # the question and the (up to 12) questions asked before it, in the recorded order
